@@ -9,16 +9,30 @@ RULE = ("wf cases: packages of 0-27 real CTransactions (count 24/25/26, total we
         "transactions, a single overweight transaction), random dependency graphs given in sorted, swapped, reversed and shuffled "
         "order, repeated entries, same-txid-different-witness twins, two transactions spending one outpoint, one transaction spending an "
         "outpoint twice, empty-vin transactions, child-with-all/some/no-parents, parents spending each other; one 21 MB transaction "
-        "repeated 25 times (int accumulator wrap). non-trivial = at least two package entries; distinct = distinct case lines")
+        "repeated 25 times (int accumulator wrap). acc cases: real ProcessNewPackage on a regtest chain with 64 confirmed anyone-can-spend "
+        "coins: 1-parent-1-child with every fee class pair (0, min-1, min, package-min-1, package-min, high) and the parent fresh / "
+        "already in the mempool / present as a different-witness twin; single-transaction packages; ill-formed packages over valid "
+        "transactions (unsorted, duplicate, twin duplicate, in-package conflict, not child-with-parents, grandparent, 26 members); random "
+        "child-with-parents packages of 2-25 transactions with low-fee parents, missing inputs, parents spending parents, mempool "
+        "parents outside the package, over random mempool pre-states. non-trivial = at least two built transactions; distinct = distinct case lines")
 ASSUMPTIONS = ["txids/wtxids are abstracted to labels: distinct built transactions have distinct txids, a witness-only change keeps the txid "
                "(SHA256d collision freedom; the driver builds real transactions so the real hashes are what the C++ side compares)",
                "premise of the well-formedness theorems: package size fits unsigned int and each weight w satisfies 0 <= w and "
                "w * MAX_PACKAGE_COUNT <= INT32_MAX (true of anything that fits a P2P message: theorem C29_p2p_weight_within_bound); "
-               "outside it the int accumulator wraps (C29_weight_accumulator_wraps_refuted, replayed by the 'big' case)"]
+               "outside it the int accumulator wraps (C29_weight_accumulator_wraps_refuted, replayed by the 'big' case)",
+               "premises of C29_accept_package on the sub-evaluations (single_ok, multi_ok, trim_ok: failed evaluation leaves the mempool alone; "
+               "a sub-package is submitted entirely or not at all; evicted sets are descendant-closed; inputs of an accepted transaction are "
+               "mempool outputs or confirmed coins) - they are facts about PreChecks/SubmitPackage/TrimToSize (C22/C26/C28 territory), shown "
+               "satisfiable together by C29_premises_satisfiable and exercised on the real code by the acc correspondence",
+               "acc scenarios: version-2 standard transactions with valid scripts, no double spends against the mempool (no RBF), default "
+               "mempool size (LimitMempoolSize never evicts): there acceptance is decided by input availability and fee rate, which is what "
+               "the scenario evaluator (toy_single/toy_multi) computes"]
 TRUSTED = ["Coq 8.16.1 kernel (coqc; vm_compute for the witness lemma)",
            "tie/dump_params.cpp + tie/params/mempoolpol.h print MAX_PACKAGE_COUNT, MAX_PACKAGE_WEIGHT, MAX_PROTOCOL_MESSAGE_LENGTH from the compiled tree",
            "extraction: ExtrOcamlBasic only; ocaml/conv.ml + package_driver.ml glue (labels for hashes)",
-           "tie/drivers/package_drv.cpp builds the CTransactions it is told to, checks the claimed weights against GetTransactionWeight and prints the real functions' answers"]
+           "tie/drivers/package_drv.cpp builds the CTransactions it is told to, checks the claimed weights against GetTransactionWeight and prints the real functions' answers; "
+           "in accept mode it funds 64 P2WSH(OP_DROP OP_TRUE) coins on a TestChain100Setup, submits the pre-state with ProcessTransaction, calls the real "
+           "ProcessNewPackage and prints the package state, per-transaction result kinds and mempool membership before/after"]
 
 
 def cs(n):
@@ -469,7 +483,10 @@ TIES = [Tie("package_wf", "tie/drivers/package_drv.cpp", "Extract_Package.v", "p
         Tie("package_accept", "tie/drivers/package_drv.cpp", "Extract_Package.v", "package_driver.ml", gen_acc, mode="accept",
             predicate="driver", nontrivial=nontrivial)]
 
-LEVEL_TEXT = ("Coq theorems over all packages: IsWellFormedPackage's model accepts iff count, weight (for 2+ transactions), distinct "
+LEVEL_TEXT = ("Coq theorems over all packages and all behaviours of the sub-evaluations within named premises: AcceptPackage evaluates "
+              "nothing unless the package is well-formed and child-with-parents, its result map covers exactly the package's wtxids, every "
+              "reported result matches mempool membership afterwards, no package transaction stays in the mempool without its in-package "
+              "parent; and over all packages: IsWellFormedPackage's model accepts iff count, weight (for 2+ transactions), distinct "
               "txids, topological order and input-disjointness all hold, and its reject reason is the first violated clause in the "
               "code's order; IsChildWithParents / IsChildWithParentsTree hold iff the package is parents ++ [child] with every parent "
               "spent by the child (and no parent spending a parent); the int accumulator of std::accumulate cannot wrap under the "
